@@ -248,6 +248,15 @@ func c24WaitDrained(got *[]c24Batch, mu *sync.Mutex, lastSeq int64, wantObjs int
 func TestVerifC24(t *testing.T) {
 	rep := vfNewReport("C24", "A: generated single-writer scenarios (capacity 0-6, batch size -1..5, no timer, 0-40 Write/Flush ops, 0-3 objects per write, optional flush channel), diffed exactly, non-trivial when at least two batches were emitted and one was cut by a Flush; B: concurrent runs (2-5 writers x 5-40 writes, random flushes, 1-3 ms timer or none, fast or slow consumer) checked by the property and replayed on the model by a schedule constructed from the observation, non-trivial when batches of different sizes were emitted; distinct by emitted batch structure")
 	defer rep.Write()
+	// checkpoint: findings so far plus a crash marker are on disk while goroutines that could
+	// panic the process are running; the final Write (deferred) replaces it
+	checkpoint := func() {
+		n := len(rep.OracleFailures)
+		rep.OracleFailures = append(rep.OracleFailures, vfOracleFailure{"process-crashed-during-run", "the test process ended before the run finished (panic in a non-test goroutine)", nil})
+		rep.Write()
+		rep.OracleFailures = rep.OracleFailures[:n]
+	}
+	checkpoint()
 	r := vfNewRng(24)
 	var allOps, allImpl [][]string
 
@@ -375,6 +384,9 @@ func TestVerifC24(t *testing.T) {
 	// ---- B ---------------------------------------------------------------------
 	nB := vfScale(60, 5000)
 	for i := 0; i < nB; i++ {
+		if i%10 == 0 {
+			checkpoint()
+		}
 		maxSize := 1 + r.Intn(8)
 		batchSize := 1 + r.Intn(6)
 		if r.Chance(10) {
